@@ -377,7 +377,8 @@ class AbsolutePositionObserver(ObserverBaseComponent):
         if not self._supported_agent(agent):
             return {}
         else:
-            return {self.key: agent.position}
+            # A copy: what the caller does to its observation must not move the agent.
+            return {self.key: np.array(agent.position)}
 
 
 class AmmoObserver(ObserverBaseComponent):
